@@ -61,7 +61,7 @@ Pr == MkProblem(pt[1], pt[2], pt[3])
 
 Exists == IsPoint => IsNonsingular(DefSystem(pt[1], pt[2]))
 
-Defining == IsPoint => LET pr == TLCEval(Pr)  C == TLCEval(MinCoeffs(pr))  R == AllResiduals(pr, C)
+Defining == IsPoint => LET pr == Force(Pr)  C == Force(MinCoeffs(pr))  R == AllResiduals(pr, C)
             IN \A q \in 1..Len(R) : R[q].res.num = Zero
 
 (* ------------------------ first-order optimality ---------------------- *)
@@ -75,29 +75,29 @@ HermiteSys(s, Ti) ==
 HermiteBasis(s, Ti, r) == SolveVec(HermiteSys(s, Ti), VUnit(2 * s, r))
 Cross(x, dl, s, Ti) == PolyInt(PolyMul(PolyDeriv(x, s), PolyDeriv(dl, s)), Ti)
 Optimal == IsPoint =>
-    LET pr == TLCEval(Pr)  C == TLCEval(MinCoeffs(pr))  s == pr.s  N == NSeg(pr)
+    LET pr == Force(Pr)  C == Force(MinCoeffs(pr))  s == pr.s  N == NSeg(pr)
     IN \A i \in 1..(N - 1) : \A m \in 1..(s - 1) :
-          LET dL == TLCEval(HermiteBasis(s, pr.T[i], s + m + 1))       \* derivative m at the right end of segment i
-              dR == TLCEval(HermiteBasis(s, pr.T[i + 1], m + 1))       \* derivative m at the left end of segment i+1
+          LET dL == Force(HermiteBasis(s, pr.T[i], s + m + 1))       \* derivative m at the right end of segment i
+              dR == Force(HermiteBasis(s, pr.T[i + 1], m + 1))       \* derivative m at the left end of segment i+1
           IN \A col \in 1..D2 :
                 RAdd(Cross(SegPoly(C, s, i, col), dL, s, pr.T[i]),
                      Cross(SegPoly(C, s, i + 1, col), dR, s, pr.T[i + 1])) = Zero
 
 Book == IsPoint =>
-    LET pr == TLCEval(Pr)  kn == TLCEval(Knots(pr.t0, pr.T))  N == NSeg(pr)
+    LET pr == Force(Pr)  kn == Force(Knots(pr.t0, pr.T))  N == NSeg(pr)
     IN /\ DursOfPoints(kn) = pr.T
        /\ kn[1] = pr.t0
        /\ kn[N + 1] = RAdd(pr.t0, RSum(pr.T))
        /\ \A i \in 1..N : RLt(kn[i], kn[i + 1])
 
 EnergyLaws == IsPoint =>
-    LET pr == TLCEval(Pr)  C == TLCEval(MinCoeffs(pr))  e == TLCEval(Energy(C, pr.s, pr.T))
+    LET pr == Force(Pr)  C == Force(MinCoeffs(pr))  e == Force(Energy(C, pr.s, pr.T))
     IN /\ RLe(Zero, e)
        /\ e = RSum([col \in 1..D2 |-> EnergyOfCoord(C, pr.s, pr.T, col)])
        /\ RLe(e, EnergyAbs(C, pr.s, pr.T))
 
 Coordwise == IsPoint =>
-    LET pr == TLCEval(Pr)  C == TLCEval(MinCoeffs(pr))
+    LET pr == Force(Pr)  C == Force(MinCoeffs(pr))
     IN \A col \in 1..D2 :
         LET p1 == [pr EXCEPT !.P = [j \in 1..Len(pr.P) |-> <<pr.P[j][col]>>],
                               !.BS = [d \in 1..Len(pr.BS) |-> <<pr.BS[d][col]>>],
@@ -125,33 +125,33 @@ GradOK(pr, f(_), g) ==
        /\ \A i \in 1..N : Near(CD(f, BumpT(pr, i, h), BumpT(pr, i, RNeg(h)), h), g.times[i], scale)
 
 AdjointOK == IsPoint =>
-    LET pr == TLCEval(Pr)  C == TLCEval(MinCoeffs(pr))
-        UpC == TLCEval([r \in 1..NUnk(pr) |-> [c \in 1..D2 |-> RFrac(Pseudo(r, c, 4), 3)]])
-        UpT == TLCEval([i \in 1..NSeg(pr) |-> RFrac(Pseudo(i, 2, 6), 2)])
+    LET pr == Force(Pr)  C == Force(MinCoeffs(pr))
+        UpC == Force([r \in 1..NUnk(pr) |-> [c \in 1..D2 |-> RFrac(Pseudo(r, c, 4), 3)]])
+        UpT == Force([i \in 1..NSeg(pr) |-> RFrac(Pseudo(i, 2, 6), 2)])
         Loss(p) == RAdd(Inner(UpC, MinCoeffs(p)), RDot(UpT, p.T))
-        g == TLCEval(Adjoint(pr, C, UpC, UpT))
+        g == Force(Adjoint(pr, C, UpC, UpT))
     IN GradOK(pr, Loss, g)
 
 \* the energy is quadratic in P and B: central differences are exact there too
 EnergyGradOK == IsPoint =>
-    LET pr == TLCEval(Pr)  C == TLCEval(MinCoeffs(pr))
+    LET pr == Force(Pr)  C == Force(MinCoeffs(pr))
         EnergyOf(p) == Energy(MinCoeffs(p), p.s, p.T)
-        g == TLCEval(EnergyGrad(pr, C))
+        g == Force(EnergyGrad(pr, C))
     IN GradOK(pr, EnergyOf, g)
 
 (* ---------------------------- metamorphic ----------------------------- *)
 Metamorphic == IsPoint =>
-    LET Pr0 == TLCEval(Pr)  C == TLCEval(MinCoeffs(Pr0))
+    LET Pr0 == Force(Pr)  C == Force(MinCoeffs(Pr0))
         s == Pr0.s  N == NSeg(Pr0)
-        e == TLCEval(Energy(C, s, Pr0.T))
+        e == Force(Energy(C, s, Pr0.T))
         v == <<"3/2", "-7">>
         a == "3"
-        Ctr == TLCEval(MinCoeffs(Translate(Pr0, v)))
-        Csc == TLCEval(MinCoeffs(ScaleSpace(Pr0, a)))
-        pst == TLCEval(ScaleTime(Pr0, a))
-        Cst == TLCEval(MinCoeffs(pst))
-        prv == TLCEval(Reverse(Pr0))
-        Crv == TLCEval(MinCoeffs(prv))
+        Ctr == Force(MinCoeffs(Translate(Pr0, v)))
+        Csc == Force(MinCoeffs(ScaleSpace(Pr0, a)))
+        pst == Force(ScaleTime(Pr0, a))
+        Cst == Force(MinCoeffs(pst))
+        prv == Force(ReverseProblem(Pr0))
+        Crv == Force(MinCoeffs(prv))
     IN /\ MinCoeffs(Shift(Pr0, "5/3")) = C                                             \* shift: same local polynomials
        /\ Knots(RAdd(Pr0.t0, "5/3"), Pr0.T) = [j \in 1..(N + 1) |-> RAdd(Knots(Pr0.t0, Pr0.T)[j], "5/3")]
        /\ \A r \in 1..Len(C) : Ctr[r] = (IF (r - 1) - ((r - 1) \div (2 * s)) * 2 * s = 0 THEN VAdd(C[r], v) ELSE C[r])
@@ -163,11 +163,11 @@ Metamorphic == IsPoint =>
        /\ Crv = ReverseCoeffs(C, s, Pr0.T)
        /\ Energy(Crv, s, prv.T) = e
        \* the energy gradients transform accordingly
-       /\ LET g == TLCEval(EnergyGrad(Pr0, C))
-              gtr == TLCEval(EnergyGrad(Translate(Pr0, v), Ctr))
-              gsc == TLCEval(EnergyGrad(ScaleSpace(Pr0, a), Csc))
-              gst == TLCEval(EnergyGrad(pst, Cst))
-              grv == TLCEval(EnergyGrad(prv, Crv))
+       /\ LET g == Force(EnergyGrad(Pr0, C))
+              gtr == Force(EnergyGrad(Translate(Pr0, v), Ctr))
+              gsc == Force(EnergyGrad(ScaleSpace(Pr0, a), Csc))
+              gst == Force(EnergyGrad(pst, Cst))
+              grv == Force(EnergyGrad(prv, Crv))
               SM(f, M) == [i \in 1..Len(M) |-> VScale(f, M[i])]
           IN /\ gtr = g
              /\ gsc.points = SM(a, g.points) /\ gsc.bs = SM(a, g.bs) /\ gsc.be = SM(a, g.be) /\ gsc.times = VScale(RSq(a), g.times)
